@@ -1,9 +1,10 @@
 #!/bin/bash
-# Usage: tools/seedall.sh <ID> [tier] [extra checks...] : evaluates /tmp/mut/<ID>-out/m*/ with trymut.sh and files the confirmed ones
-# under /verif/seeded/<ID>-mN/ (patch.diff, demo_test.go, agent_meta.txt, result.txt, meta.json).
+# Usage: [MUTBASE=/tmp/mut2 OFFSET=3] tools/seedall.sh <ID> [tier] [extra checks...] : evaluates $MUTBASE/<ID>-out/m*/ with trymut.sh and
+# files the confirmed ones under /verif/seeded/<ID>-m<N+OFFSET>/ (patch.diff, demo_test.go, agent_meta.txt, result.txt, meta.json).
 ID=$1; TIER=${2:-quick}; shift; shift || true
-for M in /tmp/mut/$ID-out/m*/; do
-  N=$(basename $M)
+MUTBASE=${MUTBASE:-/tmp/mut}; OFFSET=${OFFSET:-0}
+for M in $MUTBASE/$ID-out/m*/; do
+  N=$(basename $M); N=m$(( ${N#m} + OFFSET ))
   OUT=/verif/seeded/$ID-$N
   mkdir -p $OUT
   RES=$(/verif/tools/trymut.sh $ID $M $TIER "$@" 2>&1)
@@ -23,6 +24,7 @@ fps=re.findall(r'fingerprint: (.*)',res)
 json.dump({
  "property": pid, "id": f"{pid}-{n}",
  "what_was_changed_and_what_it_needs_to_manifest": meta.strip()[:3000],
+ "round": 2 if int(n[1:])>3 else 1,
  "confirmed_by_me": confirmed=="yes",
  "confirmation": "scratch worktree: patch applies, go build ok, existing suite all ok with the change, demo FAILS with the change and passes without (tools/trymut.sh)",
  "check_run": f"./check {pid} {tier} against the patched tree",
